@@ -404,6 +404,18 @@ def claim_token_dispatch(cx, res, kf):
                     check(t, z3.And(digit, digsym), "digit-initial symbol although leading-digit symbols are disabled", replay_corpus(DIGIT_CORPUS))
                     check(t, z3.Not(z3.And(kw_postfix, ends)), "digit-initial name with trailing colon is read as a symbol although name: keywords are enabled",
                           replay_corpus(KW_CORPUS))
+                    # ... and only when the token is NOT a complete numeric literal: the number sub-parser accepted it and nothing was left over
+                    subs = [e for e in st.events if e[0] == "sub"]
+                    numev = [e for e in subs if len(e) >= 3 and e[1] not in ("peek", "next_char", "expect_end", "parse_whitespace", "from_slice_custom")]
+                    asked_ = [e for e in subs if e[1] in ("peek", "next_char") and len(e) >= 4]
+                    if numev and asked_:
+                        res.must_be_unsat(pc + [z3.Not(numev[0][2]), z3.Not(asked_[-1][2]), z3.Not(asked_[-1][3])],
+                                          "with leading-digit symbols a token that IS a complete numeric literal (the number scanner accepted it, nothing "
+                                          "left over) is read as a name: `1e21`, `2.5e-7` become symbols", None)
+                    elif numev:
+                        res.must_be_unsat(pc + [z3.Not(numev[0][2])],
+                                          "with leading-digit symbols a token the number scanner ACCEPTED is read as a name without asking whether "
+                                          "anything is left over (complete literals such as `1e21` become symbols)", None)
                     continue
                 not_special = z3.And(z3.Not(z3.And(kw_postfix, ends)),
                                      z3.Not(z3.And(z3.Not(nil_default), isnil)), z3.Not(z3.And(t_true, ist)))
@@ -550,5 +562,5 @@ CLAIMS = [
           "prefixes / sign followed by a terminator), independent of the name's first byte class; numbers in leading-digit "
           "mode only when the whole token is a literal",
           "first byte and one lookahead byte symbolic, all option fields symbolic, names abstracted to 3 predicates", configs=("fast",),
-          also=("C01", "C02", "C13")),
+          also=("C01", "C02", "C13", "C17")),
 ]
